@@ -7,6 +7,7 @@
 package main
 
 import (
+	"bytes"
 	"crypto/sha256"
 	"fmt"
 	"math/big"
@@ -97,6 +98,11 @@ func key(k int) []byte {
 	pk.X, pk.Y = crypto.DefaultCurve.ScalarBaseMult(d[:])
 	enc, _ := pk.EncodePoint(true)
 	return enc
+}
+
+func keyPriv(k int) []byte {
+	d := sha256.Sum256([]byte(fmt.Sprintf("verif-c28-key-%d", k)))
+	return d[:]
 }
 
 func stdCode(k []byte) []byte { return append(append([]byte{33}, k...), 0xAC) }
@@ -1109,6 +1115,298 @@ func main() {
 	}
 	for k := 0; k < run.N(40, 1500); k++ {
 		voteBlocks(rng.Fork())
+	}
+
+	// ---------------------------------------------------------------- block-driven producer deposit histories
+	// A standalone dpos State through the real State.ProcessBlock: producers of the three
+	// identities (v1, v2, v1 upgraded to v1+v2 by UpdateProducer), StakeUntil before or
+	// after the DPoS 2.0 activation height A (set at run time, as the arbitrators do),
+	// CancelProducer at heights around A, A - lockup and StakeUntil, penalties, extra
+	// deposits, ReturnDepositCoin (real SpecialContextCheck) after the lockup.
+	prodBlocks := func(r *lib.Rng, script int) {
+		const ela = 100000000
+		p2 := *params
+		p2.CRConfiguration.DepositLockupBlocks = uint32(r.PickU64(3, 5, 8))
+		L := p2.CRConfiguration.DepositLockupBlocks
+		saveParams, saveHeight := params, height
+		params = &p2
+		bs := state.NewState(&p2, nil, nil, nil, func() bool { return false }, nil, nil, nil, nil, nil, nil, nil)
+		oldState := chain.GetState()
+		chain.SetState(bs)
+		defer func() { chain.SetState(oldState); params, height = saveParams, saveHeight }()
+		A := uint32(r.Range(18, 45))
+		setAt := uint32(1)
+		if r.Chance(70) {
+			setAt = uint32(r.Range(2, int(A)-1)) // the activation height becomes known at run time
+		}
+		type utxo struct {
+			in  *common2.Input
+			val int64
+		}
+		type prod struct {
+			kind        int // 0 v1, 1 v2, 2 v1 -> v1+v2
+			owner       []byte
+			priv        []byte
+			code        []byte
+			hash        elacommon.Uint168
+			regAt       uint32
+			upgradeAt   uint32
+			stakeTo     uint32
+			cancelAt    uint32
+			penAt       uint32
+			pen         int64
+			p           *state.Producer
+			utxos       []utxo
+			exTot       *big.Int
+			init        string
+			blocks      []string
+			log         []string
+			acc         int
+			lastLock    int64
+			cancelled   bool
+			cancelBlock uint32
+			coincided   bool // an automatic adjustment of the lock happened in the block of the CancelProducer tx
+		}
+		var prods []*prod
+		for j := 0; j < 4; j++ {
+			pcount++
+			o := key(pcount)
+			dh, _ := state.GetOwnerKeyDepositProgramHash(o)
+			q := &prod{kind: r.Intn(3), priv: keyPriv(pcount), owner: o, code: stdCode(o), hash: *dh, regAt: uint32(r.Range(1, 5)), exTot: b(0)}
+			if j == 0 {
+				q.kind = 2
+			}
+			switch q.kind {
+			case 1:
+				q.stakeTo = q.regAt + uint32(r.Range(10, 50))
+			case 2:
+				q.upgradeAt = q.regAt + uint32(r.Range(7, 12))
+				q.stakeTo = q.upgradeAt + uint32(r.Range(2, 30))
+			}
+			if r.Chance(85) {
+				if r.Chance(50) {
+					q.cancelAt = uint32(int(r.PickI64(int64(A), int64(A)-int64(L), int64(q.stakeTo), int64(A)+int64(L))) + r.Range(-2, 3))
+				} else {
+					q.cancelAt = q.regAt + uint32(r.Range(7, 50))
+				}
+				if q.cancelAt < q.regAt+7 {
+					q.cancelAt = q.regAt + 7
+				}
+			}
+			if r.Chance(45) {
+				q.penAt = q.regAt + uint32(r.Range(7, 40))
+				q.pen = r.PickI64(100, 500, 3000, 6000) * ela
+			}
+			prods = append(prods, q)
+		}
+		// corpus: fixed scenarios around the activation height A and the lockup L (producer 0)
+		if script > 0 {
+			q := prods[0]
+			q.kind, q.regAt, q.upgradeAt, q.penAt, q.pen = 2, 1, 8, 10, 500*ela
+			A, setAt = 30, 2
+			switch script {
+			case 1: // cancel before A, lockup over before A (the lock is released once)
+				q.stakeTo, q.cancelAt = 12, 13
+			case 2: // cancel before A, A inside the lockup
+				q.stakeTo, q.cancelAt = 12, A-1
+			case 3: // cancel transaction in the block of the automatic cancel (first block above StakeUntil, DPoS 2.0 active)
+				q.stakeTo, q.cancelAt = 40, 41
+			case 4: // cancel transaction in the activation block itself
+				q.stakeTo, q.cancelAt = 12, A
+			case 5: // a v1 producer cancels in the activation block
+				q.kind, q.upgradeAt, q.stakeTo, q.cancelAt = 0, 0, 0, A
+			case 6: // v1+v2 still staked at A, expires later without a transaction
+				q.stakeTo, q.cancelAt = 45, 0
+			}
+		}
+		for h := uint32(1); h <= 75; h++ {
+			height = h
+			if h == setAt {
+				bs.DPoSV2ActiveHeight = A
+			}
+			var txs []interfaces.Transaction
+			opsOf := map[*prod][]string{}
+			for j, q := range prods {
+				if q.p != nil && h == q.penAt { // abstract penalty (consensus event)
+					q.p.SetPenalty(q.p.Penalty() + fx(q.pen))
+					opsOf[q] = append(opsOf[q], fmt.Sprintf("DPenalty %d", q.pen))
+					q.log = append(q.log, fmt.Sprintf("h%d penalty %d", h, q.pen))
+				}
+				switch {
+				case h == q.regAt:
+					lock := int64(5000 * ela)
+					info := &payload.ProducerInfo{OwnerKey: q.owner, NodePublicKey: q.owner, NickName: fmt.Sprintf("pb%d-%d", pcount, j)}
+					if q.kind == 1 {
+						info.StakeUntil = q.stakeTo
+						lock = 2000 * ela
+					}
+					amt := lock + r.PickI64(0, 0, 1, 100*ela)
+					tx := transaction.CreateTransaction(0, common2.RegisterProducer, 0, info, uniqueAttr(), nil,
+						mkOutputs(q.hash, []int64{amt}, nil), 0, nil)
+					txs = append(txs, tx)
+					q.utxos = append(q.utxos, utxo{&common2.Input{Previous: common2.OutPoint{TxID: tx.Hash(), Index: 0}}, amt})
+					q.exTot.Add(q.exTot, b(amt))
+					q.log = append(q.log, fmt.Sprintf("h%d register kind=%d amount %d stakeUntil %d", h, q.kind, amt, info.StakeUntil))
+				case q.p == nil:
+				case h == q.upgradeAt && q.kind == 2:
+					info := q.p.Info()
+					info.StakeUntil = q.stakeTo
+					txs = append(txs, transaction.CreateTransaction(0, common2.UpdateProducer, 0, &info, uniqueAttr(), nil, nil, 0, nil))
+					q.log = append(q.log, fmt.Sprintf("h%d upgrade to v1+v2, stakeUntil %d", h, q.stakeTo))
+				case h >= q.cancelAt && q.cancelAt != 0 && !q.cancelled && (q.p.State() == state.Active || q.p.State() == state.Inactive):
+					// the real CancelProducer check decides (a v2 producer cannot cancel, a v1+v2 one
+					// only once its StakeUntil has passed): retried every block from cancelAt on
+					pp := &payload.ProcessProducer{OwnerKey: q.owner}
+					buf := new(bytes.Buffer)
+					pp.SerializeUnsigned(buf, payload.ProcessProducerVersion)
+					pp.Signature, _ = crypto.Sign(q.priv, buf.Bytes())
+					tx := transaction.CreateTransaction(0, common2.CancelProducer, payload.ProcessProducerVersion, pp, uniqueAttr(), nil, nil, 0, nil)
+					ok, why, pan := special(tx, nil)
+					if pan {
+						st.Fail("SpecialContextCheck:panic", "cancel producer check panicked: "+why, nil)
+					}
+					if ok {
+						txs = append(txs, tx)
+						q.cancelled = true
+						q.cancelBlock = h
+						q.log = append(q.log, fmt.Sprintf("h%d cancel (state %v identity %v)", h, q.p.State(), q.p.Identity()))
+					}
+				case q.p.State() == state.Canceled && len(q.utxos) > 0 && r.Chance(35):
+					// return: everything available, one more, or all inputs
+					var ins []*common2.Input
+					var refs []int64
+					refm := map[*common2.Input]common2.Output{}
+					for len(q.utxos) > 0 && (len(ins) == 0 || r.Chance(50)) {
+						x := r.Intn(len(q.utxos))
+						ins = append(ins, q.utxos[x].in)
+						refs = append(refs, q.utxos[x].val)
+						refm[q.utxos[x].in] = common2.Output{Value: fx(q.utxos[x].val), ProgramHash: q.hash}
+						q.utxos = append(q.utxos[:x], q.utxos[x+1:]...)
+					}
+					in := int64(0)
+					for _, v := range refs {
+						in += v
+					}
+					av := int64(q.p.AvailableAmount())
+					want := av + int64(r.Intn(3)) - 1
+					if r.Chance(30) || want <= 0 || want > in {
+						want = in
+					}
+					var change, outs []int64
+					if in-want > 0 {
+						change = append(change, in-want)
+					}
+					if want > 10000 {
+						outs = append(outs, want-10000)
+					} else {
+						outs = append(outs, 0)
+					}
+					tx := transaction.CreateTransaction(common2.TxVersion09, common2.ReturnDepositCoin, 0, &payload.ReturnDepositCoin{}, uniqueAttr(), ins,
+						mkOutputs(q.hash, change, outs), 0, []*program.Program{{Code: q.code, Parameter: []byte{}}})
+					ok, why, pan := special(tx, refm)
+					if pan {
+						st.Fail("SpecialContextCheck:panic", "return deposit check panicked: "+why, nil)
+					}
+					tot, lk, pn := int64(q.p.TotalAmount()), int64(q.p.DepositAmount()), int64(q.p.Penalty())
+					q.log = append(q.log, fmt.Sprintf("h%d return refs=%v change=%v outs=%v (total %d locked %d penalty %d) ok=%v", h, refs, change, outs, tot, lk, pn, ok))
+					opsOf[q] = append(opsOf[q], fmt.Sprintf("DReturn %s %s %s", coqZs(refs), coqZs(change), coqZs(outs)))
+					if ok {
+						q.acc++
+						// oracle: withdrawn <= total - penalty - lock, a negative lock counted as zero
+						if lk < 0 {
+							lk = 0
+						}
+						if want > tot-pn-lk && q.coincided {
+							st.Fail("ProducerDeposit:block-history:cancel-tx-coincides-with-automatic-release", "producer block history: accepted ReturnDepositCoin withdraws more than total - penalty - locked deposit after the double release",
+								map[string]interface{}{"history": append([]string{}, q.log...), "activation_height": A, "lockup": L})
+						} else if want > tot-pn-lk {
+							st.Fail("ReturnDeposit:accepted-overdraw", "producer block history: accepted ReturnDepositCoin withdraws more than total - penalty - locked deposit",
+								map[string]interface{}{"history": append([]string{}, q.log...), "activation_height": A, "lockup": L})
+						}
+						txs = append(txs, tx)
+						for ci, v := range change {
+							q.utxos = append(q.utxos, utxo{&common2.Input{Previous: common2.OutPoint{TxID: tx.Hash(), Index: uint16(ci)}}, v})
+						}
+						q.exTot.Sub(q.exTot, b(want))
+					} else {
+						for k, inp := range ins {
+							q.utxos = append(q.utxos, utxo{inp, refs[k]})
+						}
+					}
+				case r.Chance(6):
+					v := r.PickI64(1, 100*ela, 2500*ela)
+					tx := transaction.CreateTransaction(common2.TxVersion09, common2.TransferAsset, 0, &payload.TransferAsset{}, uniqueAttr(), nil,
+						mkOutputs(q.hash, []int64{v}, nil), 0, nil)
+					txs = append(txs, tx)
+					q.utxos = append(q.utxos, utxo{&common2.Input{Previous: common2.OutPoint{TxID: tx.Hash(), Index: 0}}, v})
+					q.exTot.Add(q.exTot, b(v))
+					opsOf[q] = append(opsOf[q], fmt.Sprintf("DDeposit %d", v))
+					q.log = append(q.log, fmt.Sprintf("h%d deposit %d", h, v))
+				}
+			}
+			bs.ProcessBlock(&types.Block{Header: common2.Header{Height: h}, Transactions: txs}, nil, 0)
+			if h == A {
+				for _, q := range prods {
+					q.log = append(q.log, fmt.Sprintf("h%d DPoS 2.0 active", h))
+				}
+			}
+			for j, q := range prods {
+				if q.p == nil {
+					if q.p = bs.GetProducer(q.owner); q.p == nil {
+						continue
+					}
+					q.init = fmt.Sprintf("(%d,%d,%d)", q.p.TotalAmount(), q.p.DepositAmount(), q.p.Penalty())
+					q.lastLock = int64(q.p.DepositAmount())
+					continue
+				}
+				tot, lk, pn := int64(q.p.TotalAmount()), int64(q.p.DepositAmount()), int64(q.p.Penalty())
+				if lk != q.lastLock {
+					opsOf[q] = append(opsOf[q], fmt.Sprintf("DUnlock %s", lib.CoqZi(q.lastLock-lk)))
+					q.log = append(q.log, fmt.Sprintf("h%d locked deposit %d -> %d (state %v identity %v)", h, q.lastLock, lk, q.p.State(), q.p.Identity()))
+					if q.cancelBlock == h {
+						q.coincided = true
+					}
+					q.lastLock = lk
+				}
+				q.blocks = append(q.blocks, fmt.Sprintf("(%s,(%s,%s,%s))", lib.CoqList(opsOf[q]), lib.CoqZi(tot), lib.CoqZi(lk), lib.CoqZi(pn)))
+				bad, sig := "", ""
+				switch {
+				case lk < 0 || tot < 0 || pn < 0:
+					bad, sig = "a deposit counter of the producer is negative", "negative-counter"
+				case int64(q.p.AvailableAmount()) > tot-pn:
+					bad, sig = "the available amount exceeds total - penalty", "available-above-total"
+				case lk > tot:
+					bad, sig = "the locked deposit is not backed by the total", "lock-above-total"
+				case (q.p.State() == state.Active || q.p.State() == state.Pending || q.p.State() == state.Inactive) && lk < 2000*ela:
+					bad, sig = "a registered (pending/active/inactive) producer has less than the smallest required deposit locked", "required-lock-missing"
+				case b(tot).Cmp(q.exTot) != 0:
+					bad, sig = "the total differs from deposits minus returns", "total-diverges"
+				}
+				if bad != "" && q.coincided {
+					bad, sig = "the CancelProducer transaction of a producer was mined in the block in which State.ProcessBlock also adjusted its deposit automatically (StakeUntil expiry with DPoS 2.0 active, or the DPoSV2ActiveHeight adjustment): both releases are applied and the locked deposit goes negative", "cancel-tx-coincides-with-automatic-release"
+				}
+				if bad != "" {
+					st.Fail("ProducerDeposit:block-history:"+sig, "after a block processed by State.ProcessBlock: "+bad,
+						map[string]interface{}{"height": h, "producer": j, "total": tot, "locked": lk, "penalty": pn, "available": int64(q.p.AvailableAmount()),
+							"state": fmt.Sprint(q.p.State()), "identity": fmt.Sprint(q.p.Identity()), "activation_height": A, "lockup": L, "history": append([]string{}, q.log...)})
+				}
+			}
+		}
+		for _, q := range prods {
+			if q.p == nil {
+				continue
+			}
+			i := next()
+			sh.Add(fmt.Sprintf("CDBlocks %d %s %s", i, q.init, lib.CoqList(q.blocks)))
+			st.LogCase(run.Out, i, map[string]interface{}{"op": "producer-blocks", "activation_height": A, "lockup": L, "history": q.log})
+			st.Count("pb|"+strings.Join(q.log, ";"), q.acc > 0, "producer-blocks")
+		}
+	}
+	for sc := 1; sc <= 6; sc++ {
+		prodBlocks(rng.Fork(), sc)
+	}
+	for k := 0; k < run.N(40, 1500); k++ {
+		prodBlocks(rng.Fork(), 0)
 	}
 
 	// ---------------------------------------------------------------- block-driven CR deposit histories
